@@ -446,7 +446,10 @@ theorem c10_fser_rel (Mp : MapEnv) (JK : List String) : ∀ (f : FieldDecl) (v :
       cases hx : relLast Mp fs .none <;> simp [hx, PyVal.isNone] at this
       rfl
     · simp only [hv, Bool.false_eq_true, if_false]
-      exact c10_fserLast_rel Mp JK fs v h
+      by_cases hm : anyOfMulti fs = true
+      · simp only [hm, if_true]; rfl
+      · simp only [hm, Bool.false_eq_true, if_false]
+        exact c10_fserLast_rel Mp JK fs v h
   | .struct c fields ds, v, h => by
     simp only [fmsafeD, and_true_iff, Bool.not_eq_true'] at h
     have hinl := h.1.1.1
